@@ -77,7 +77,7 @@ mutual
 theorem create_renders (s : Sem E V T) (now : Nat) (D : V) (sc : List V) : ∀ t : Tpl E, renders s D sc t (create s now D sc t)
   | .text _ => rfl
   | .elem _ _ ch => ⟨rfl, rfl, createL_renders s now D sc ch⟩
-  | .block ch => createL_renders s now D sc ch
+  | .block inc ch => createL_renders s now D (if inc then [] else sc) ch
   | .cond bs => ⟨rfl, createBr_renders s now D sc bs _ 1⟩
   | .loop _ body => mkItems_renders now _ (fun a x => createL_renders s now D (sc ++ [a, x]) body) _
   | .loopK _ _ body => ⟨rfl, mkItems_renders now _ (fun a x => createL_renders s now D (sc ++ [a, x]) body) _⟩
@@ -320,9 +320,11 @@ theorem update_renders (s : Sem E V T) {cov : T → V → V → Prop} (law : Law
     simp only [update, renders]
     refine ⟨h1, ?_, update_rendersL s law now D0 D1 U hU ch och sc0 sc1 su hsu h3⟩
     rw [h2]; exact updAttrs_eq s law hU hsu attrs
-  | .block ch, .virt b och, sc0, sc1, su, hsu, h => by
+  | .block inc ch, .virt b och, sc0, sc1, su, hsu, h => by
     simp only [update, renders]
-    exact update_rendersL s law now D0 D1 U hU ch och sc0 sc1 su hsu h
+    cases inc with
+    | false => exact update_rendersL s law now D0 D1 U hU ch och sc0 sc1 su hsu h
+    | true => exact update_rendersL s law now D0 D1 U hU ch och [] [] [] trivial h
   | .cond bs, .ifn b k och, sc0, sc1, su, hsu, h => by
     obtain ⟨h1, h2⟩ := h
     simp only [update]
@@ -368,8 +370,8 @@ theorem update_renders (s : Sem E V T) {cov : T → V → V → Prop} (law : Law
   | .text _, .forn .., _, _, _, _, h | .text _, .fornK .., _, _, _, _, h => by simp [renders] at h
   | .elem .., .text .., _, _, _, _, h | .elem .., .virt .., _, _, _, _, h | .elem .., .ifn .., _, _, _, _, h
   | .elem .., .forn .., _, _, _, _, h | .elem .., .fornK .., _, _, _, _, h => by simp [renders] at h
-  | .block _, .text .., _, _, _, _, h | .block _, .elem .., _, _, _, _, h | .block _, .ifn .., _, _, _, _, h
-  | .block _, .forn .., _, _, _, _, h | .block _, .fornK .., _, _, _, _, h => by simp [renders] at h
+  | .block _ _, .text .., _, _, _, _, h | .block _ _, .elem .., _, _, _, _, h | .block _ _, .ifn .., _, _, _, _, h
+  | .block _ _, .forn .., _, _, _, _, h | .block _ _, .fornK .., _, _, _, _, h => by simp [renders] at h
   | .cond _, .text .., _, _, _, _, h | .cond _, .elem .., _, _, _, _, h | .cond _, .virt .., _, _, _, _, h
   | .cond _, .forn .., _, _, _, _, h | .cond _, .fornK .., _, _, _, _, h => by simp [renders] at h
   | .loop .., .text .., _, _, _, _, h | .loop .., .elem .., _, _, _, _, h | .loop .., .virt .., _, _, _, _, h
@@ -425,7 +427,7 @@ theorem renders_shape (s : Sem E V T) (D : V) : ∀ (t : Tpl E) (n : Node V) (sc
   | .elem tag attrs ch, .elem b tag' vs nch, sc, h => by
     obtain ⟨h1, h2, h3⟩ := h
     simp only [create, Node.shape, h1, h2, rendersL_shape s D ch nch sc h3]
-  | .block ch, .virt b nch, sc, h => by simp only [create, Node.shape, rendersL_shape s D ch nch sc h]
+  | .block inc ch, .virt b nch, sc, h => by simp only [create, Node.shape, rendersL_shape s D ch nch (if inc then [] else sc) h]
   | .cond bs, .ifn b k nch, sc, h => by
     obtain ⟨h1, h2⟩ := h
     simp only [create, Node.shape, h1]
@@ -442,8 +444,8 @@ theorem renders_shape (s : Sem E V T) (D : V) : ∀ (t : Tpl E) (n : Node V) (sc
   | .text _, .fornK .., _, h => by simp [renders] at h
   | .elem .., .text .., _, h | .elem .., .virt .., _, h | .elem .., .ifn .., _, h | .elem .., .forn .., _, h
   | .elem .., .fornK .., _, h => by simp [renders] at h
-  | .block _, .text .., _, h | .block _, .elem .., _, h | .block _, .ifn .., _, h | .block _, .forn .., _, h
-  | .block _, .fornK .., _, h => by simp [renders] at h
+  | .block _ _, .text .., _, h | .block _ _, .elem .., _, h | .block _ _, .ifn .., _, h | .block _ _, .forn .., _, h
+  | .block _ _, .fornK .., _, h => by simp [renders] at h
   | .cond _, .text .., _, h | .cond _, .elem .., _, h | .cond _, .virt .., _, h | .cond _, .forn .., _, h
   | .cond _, .fornK .., _, h => by simp [renders] at h
   | .loop .., .text .., _, h | .loop .., .elem .., _, h | .loop .., .virt .., _, h | .loop .., .ifn .., _, h
@@ -598,7 +600,7 @@ theorem toyLaw : Law toySem toyCov where
 
 /-- `<view wx:if="{{d}}">{{d}}</view><block wx:for="{{d}}">x</block>`: 2 → 3 keeps the branch (its text is rewritten in place) and grows the list -/
 example :
-    let t : Tpl Bool := .block (.cons (.cond (.cons true (.cons (.elem "view" [] (.cons (.text true) .nil)) .nil) (.last false .nil)))
+    let t : Tpl Bool := .block false (.cons (.cond (.cons true (.cons (.elem "view" [] (.cons (.text true) .nil)) .nil) (.last false .nil)))
       (.cons (.loop true (.cons (.text false) .nil)) .nil))
     update toySem 1 3 [] true [] t (create toySem 0 2 [] t) =
       .virt 0 (.cons (.ifn 0 1 (.cons (.elem 0 "view" [] (.cons (.text 0 "3") .nil)) .nil))
